@@ -609,7 +609,45 @@ def fam_general(seed, n, features=("forged", "cfgchange", "dropcache", "crash", 
     out = []
     for i in range(n):
         r = rnd_for(seed, "general", i)
-        out.append(("gen-%d" % i, gen.general(r, nsteps=steps, features=features)))
+        out.append(("gen-%d" % i, gen.general(r, nsteps=steps, features=features + (("aligned",) if i % 3 == 2 else ()))))
+    return out
+
+
+def align(script):
+    """The same history with every request on an exact multiple of the time unit: `wait k*U` becomes `waitto` the k-th next grid
+    instant and a request that does not follow a wait moves to the next one. Idle times, id ages and cache ages then EQUAL the
+    configured durations whenever the waits add up to them (the boundaries of C03, C04, C05, C12)."""
+    lines = script.rstrip("\n").split("\n")
+    U = SEC if any(l.strip() == "codec json" for l in lines) else MS
+    g = 0
+    fresh = False
+    out = []
+    for l in lines:
+        t = l.split()
+        if t and t[0] == "wait" and t[1] != "max" and int(t[1]) > 0 and int(t[1]) % U == 0:
+            g += int(t[1]) // U
+            out.append("waitto %d" % (g * U))
+            fresh = True
+            continue
+        if t and t[0] == "req":
+            if not fresh:
+                g += 1
+                out.append("waitto %d" % (g * U))
+            fresh = False
+        elif t and t[0] not in ("cfg", "cookiecfg", "codec", "tz", "fault", "crashinside", "stale"):
+            fresh = False
+        out.append(l)
+    return "\n".join(out) + "\n"
+
+
+def with_aligned(scripts, seed, share=0.35):
+    """a deterministic share of the histories in their grid-aligned form"""
+    out = []
+    for name, text in scripts:
+        if random.Random("%d/align/%s" % (seed, name)).random() < share:
+            out.append((name + "-al", align(text)))
+        else:
+            out.append((name, text))
     return out
 
 
